@@ -1,11 +1,165 @@
 import SageModel.Proto
+import SageModel.Generated.Consts
+import SageModel.Model.C05
+import SageModel.Model.C06
+import SageModel.Model.C07
 
-/-! Driver ops for C07 (stub: no ops yet). -/
+/-! Driver ops for C07.
+
+```
+db7 <tag:hex> <generate_decoys> <opt mc> <opt min_len> <opt max_len> <opt cleave:hex> <opt restrict-byte>
+    <opt c_terminal> <opt semi> <max_variable_mods> <f32 lo> <f32 hi>
+    <nvar> {<key:hex> <nmass> <f32>*} <nstatic> {<key:hex> <f32>} <fasta text:hex>
+   | panic | ok <n> {<entry> <reported:hex>}*n             entries sorted by their text
+rev7 <tag:hex> <generate_decoys> <entry>
+   | panic | ok <entry of reverse p> <reverse (reverse p) == p> <label p> <label (reverse p)>
+             <proteins p:hex> <proteins (reverse p):hex>
+<entry> = <seq:hex> <decoy> <mc> <f32 mono> <0|1 f32 nterm> <nmods> <f32>* <0|1 f32 cterm> <nprot> <name:hex>*
+```
+All comparisons are exact (`Proto.exact`): integers, byte strings, and f32 bit patterns that result
+from the same additions in the same order (`Sage.C06` at `Float32`). The database is compared as a
+sorted list of entries (its order is C08's subject).
+
+The spec (`Sage.C07.specVerdict`) is evaluated on the IMPLEMENTATION's entries read as bit patterns
+(`Pep Nat`): equality of masses / modification slots is equality of bit patterns.
+-/
 namespace Sage.C07
 open Sage.Proto
 
+def codePoints (b : List UInt8) : Option (List Nat) :=
+  (String.fromUTF8? (ByteArray.mk b.toArray)).map fun s => s.toList.map Char.toNat
+
+def key : P (List Nat) := do
+  let b ← bytes
+  match codePoints b with
+  | some k => pure k
+  | none => failure
+
+def f32b (b : Nat) : Float32 := Float32.ofBits b.toUInt32
+def H2Of : Float32 := f32b Sage.Gen.H2O_bits
+def tableF : List Float32 := Sage.Gen.MONOISOTOPIC_bits.map f32b
+
+structure Request where
+  tag : Bytes
+  gen : Bool
+  builder : C05.Builder
+  max : Nat
+  lo : Nat
+  hi : Nat
+  vars : List (List Nat × List Nat)
+  statics : List (List Nat × Nat)
+  text : Bytes
+
+def pRequest : P Request := do
+  let tag ← bytes
+  let gen ← bool
+  let mc ← opt nat
+  let mn ← opt nat
+  let mx ← opt nat
+  let cl ← opt bytes
+  let sk ← opt nat
+  let ct ← opt bool
+  let se ← opt bool
+  let max ← nat
+  let lo ← nat
+  let hi ← nat
+  let vars ← list (do let k ← key; let ms ← list nat; pure (k, ms))
+  let statics ← list (do let k ← key; let m ← nat; pure (k, m))
+  let text ← bytes
+  pure { tag, gen, builder := ⟨mc, mn, mx, cl, sk.map Nat.toUInt8, ct, se⟩, max, lo, hi, vars, statics, text }
+
+/-- an entry on the wire, values as bit patterns -/
+def pEntry : P (Pep Nat) := do
+  let seq ← bytes
+  let decoy ← bool
+  let mc ← nat
+  let mono ← nat
+  let nterm ← opt nat
+  let mods ← list nat
+  let cterm ← opt nat
+  let proteins ← list bytes
+  pure { decoy, sequence := natSeq seq, mods, nterm, cterm, mono, mc, semi := false,
+         position := .internal, proteins }
+
+def outEntry (p : Pep Nat) : String :=
+  " ".intercalate
+    [hex (p.sequence.map Nat.toUInt8), outBool p.decoy, toString p.mc, toString p.mono,
+     outOpt toString p.nterm, outList toString p.mods, outOpt toString p.cterm, outList hex p.proteins]
+
+def toBits (p : Pep Float32) : Pep Nat :=
+  { decoy := p.decoy, sequence := p.sequence, mods := p.mods.map (·.toBits.toNat),
+    nterm := p.nterm.map (·.toBits.toNat), cterm := p.cterm.map (·.toBits.toNat),
+    mono := p.mono.toBits.toNat, mc := p.mc, semi := p.semi, position := p.position, proteins := p.proteins }
+
+def ofBits (p : Pep Nat) : Pep Float32 :=
+  { decoy := p.decoy, sequence := p.sequence, mods := p.mods.map f32b,
+    nterm := p.nterm.map f32b, cterm := p.cterm.map f32b,
+    mono := f32b p.mono, mc := p.mc, semi := p.semi, position := p.position, proteins := p.proteins }
+
+def sortStrings (l : List String) : List String := l.mergeSort fun a b => !decide (b < a)
+
 def handle (op : String) (args impl : List String) : Option Reply :=
   match op with
+  | "db7" => do
+    let r ← run pRequest args
+    let implS := " ".intercalate impl
+    match r.builder.toParams with
+    | none => pure (exact "panic" implS "na")
+    | some par =>
+      let varsV : List (C06.Target × Nat) := C06.validateVar r.vars
+      let staticsV : List (C06.Target × Nat) := C06.validate r.statics
+      let cfg : Cfg Float32 :=
+        { tag := r.tag, gen := r.gen, par := par,
+          vars := varsV.map fun tm => (tm.1, f32b tm.2),
+          statics := staticsV.map fun tm => (tm.1, f32b tm.2),
+          -- `Builder::make_parameters`: `max_variable_mods.map(|x| x.max(1))`
+          max := if r.max == 0 then 1 else r.max,
+          lo := f32b r.lo, hi := f32b r.hi, h2o := H2Of, table := tableF }
+      let model : String :=
+        match buildDb cfg r.text with
+        | none => "panic"
+        | some db =>
+          let recs := db.map fun p => outEntry (toBits p) ++ " " ++ hex (proteinsStr r.tag r.gen p)
+          " ".intercalate ("ok" :: toString recs.length :: sortStrings recs)
+      -- the spec on the implementation's database
+      let spec : String :=
+        match impl with
+        | "ok" :: rest =>
+          match run (list (do let e ← pEntry; let rep ← bytes; pure (e, rep))) rest with
+          | none => "bad:reply_unreadable"
+          | some ers =>
+            -- all records of the file, tagged ones included (`generate_decoys = false` keeps everything)
+            match C05.parse r.tag false r.text with
+            | none => "na"
+            | some recs => specVerdict par r.tag r.gen recs (ers.map (·.1)) (ers.map (·.2))
+        | _ => "na"
+      pure (exact model implS spec)
+  | "rev7" => do
+    let (tag, gen, pb) ← run (do let t ← bytes; let g ← bool; let e ← pEntry; pure (t, g, e)) args
+    let implS := " ".intercalate impl
+    let p := ofBits pb
+    let n := p.sequence.length - 1
+    -- `pep.modifications[1..n]` is out of range: slice index panic
+    if n > 1 && p.mods.length < n then pure (exact "panic" implS "na") else
+    let q := reverse p
+    let lab (x : Pep Float32) : String := toString (label x)
+    let model := " ".intercalate
+      ["ok", outEntry (toBits q), outBool (outEntry (toBits (reverse q)) == outEntry pb), lab p, lab q,
+       hex (proteinsStr tag gen p), hex (proteinsStr tag gen q)]
+    let spec : String :=
+      match impl with
+      | "ok" :: rest =>
+        match run (do let e ← pEntry; let inv ← bool; let l1 ← int; let l2 ← int; let s1 ← bytes; let s2 ← bytes
+                      pure (e, inv, l1, l2, s1, s2)) rest with
+        | none => "bad:reply_unreadable"
+        | some (e, inv, l1, l2, s1, s2) =>
+          if pb.mods.length != pb.sequence.length then "na" else
+          if e != mirror pb then "bad:reverse_ne_mirror" else
+          if !inv then "bad:not_involutive" else
+          if l1 != (if pb.decoy then -1 else 1) || l2 != (if pb.decoy then 1 else -1) then "bad:label" else
+          if s1 != specNames tag gen pb || s2 != specNames tag gen (mirror pb) then "bad:protein_names" else "ok"
+      | _ => "na"
+    pure (exact model implS spec)
   | _ => none
 
 end Sage.C07
